@@ -48,6 +48,8 @@ type c36State struct {
 	started []int // per node
 	// dupCtx: was the name already registered in the cluster when a SECOND instance started?
 	dupCtx string
+	// creators: which call (operation id @ node) started an instance, in start order
+	creators []string
 }
 
 var c36Cur atomic.Pointer[c36State]
@@ -84,6 +86,7 @@ func (a *c36Singleton) PreStart(ctx *Context) error {
 	}
 	st.running[n]++
 	st.started[n]++
+	st.creators = append(st.creators, c3xOp(ctx.Context())+"@"+st.w.names[n])
 	st.mu.Unlock()
 	a.node, a.up = n, true
 	return nil
@@ -274,6 +277,7 @@ func c36Run(t *testing.T, cfg c36Cfg, c *vsched.Chooser) (out vsched.Outcome) {
 		st.mu.Lock()
 		run := fmt.Sprint(st.running)
 		started := fmt.Sprint(st.started)
+		creators := strings.Join(st.creators, ",")
 		st.mu.Unlock()
 		w.mu.Lock()
 		rec := "-"
@@ -290,7 +294,7 @@ func c36Run(t *testing.T, cfg c36Cfg, c *vsched.Chooser) (out vsched.Outcome) {
 			cl.mu.Unlock()
 		}
 		sort.Strings(res)
-		out.Obs = fmt.Sprintf("running=%s started=%s max=%d record=%s flips=%d %s", run, started, maxRun, rec, flips, strings.Join(res, " "))
+		out.Obs = fmt.Sprintf("running=%s started=%s by=%s max=%d record=%s flips=%d %s", run, started, creators, maxRun, rec, flips, strings.Join(res, " "))
 		if len(herr) > 0 && out.Invalid == "" {
 			out.Invalid = "harness: " + strings.Join(herr, "; ")
 		}
